@@ -47,13 +47,15 @@ type tracked struct {
 	w      *wire.Wire
 	end    *wire.Conn // this link's end of the connection (nil for fake links)
 	closed bool       // the harness closed it / its connection (must end up closing)
+	// abandoned: the link set its closing flag but never finished Close (see quiesce): judged as it stands
+	abandoned bool
 }
 
 // closeFinished: LinkBase.Close sets the closing flag first, then unregisters the link and the peer route, and
 // closes its connection last. The registry may legitimately still hold a link between the first and the last
 // step, so "closing" alone is not a quiescent point; "closing and the link has closed its connection" is.
 func (t *tracked) closeFinished() bool {
-	return t.link.IsClosing() && (t.end == nil || t.end.OwnerClosed())
+	return t.link.IsClosing() && (t.abandoned || t.end == nil || t.end.OwnerClosed())
 }
 
 type world struct {
@@ -555,34 +557,59 @@ func (w *world) labelCollision() {
 
 // quiesce waits until every link the harness closed has finished closing, and until every link that reports
 // closing for any other reason (refused as duplicate, closed by its reader after the far end went away) has
-// finished, too. The wait is structural (see closeFinished); the 15 s are a watchdog whose firing is inconclusive.
+// finished, too. The wait is structural (see closeFinished); a Close that is still unfinished after 6 s without a process
+// stall was abandoned half-way and is judged as it stands.
 func (w *world) quiesce() bool {
-	pending := func() string {
-		detail := ""
+	t0 := time.Now()
+	pendingLinks := func() []*tracked {
+		var out []*tracked
 		for _, n := range w.nodes {
 			for _, t := range n.links {
-				if (t.closed || t.link.IsClosing()) && !t.closeFinished() {
-					detail += fmt.Sprintf("[node %d link to %d outgoing=%v closing=%v] ", n.idx, t.peer, t.link.Outgoing(), t.link.IsClosing())
+				if (t.closed || t.link.IsClosing()) && !t.closeFinished() && !t.abandoned {
+					out = append(out, t)
 				}
 			}
 		}
-		return detail
+		return out
 	}
-	ok := waitFor(func() bool { return pending() == "" }, 15*time.Second)
-	if !ok {
-		w.res.Inconcl("a link whose connection was closed did not finish closing within 15s: %s events: %s", pending(), strings.Join(w.trace[max(0, len(w.trace)-5):], "; "))
-		w.fail = true
+	describe := func(ts []*tracked) string {
+		d := ""
+		for _, t := range ts {
+			d += fmt.Sprintf("[link to %d outgoing=%v closing=%v] ", t.peer, t.link.Outgoing(), t.link.IsClosing())
+		}
+		return d
+	}
+	settle := func() bool {
+		if waitFor(func() bool { return len(pendingLinks()) == 0 }, 6*time.Second) {
+			return true
+		}
+		// Close takes microseconds. A link that has set its closing flag but has not closed its connection six
+		// seconds later, on a machine that did not stand still meanwhile, is not "still closing": its Close was
+		// abandoned half-way (its goroutine is gone - a recovered panic, an early return). Nothing more will
+		// happen, so this IS the quiescent state, and the invariants are judged on it. A link whose connection the
+		// harness cut but that never even noticed stays a watchdog matter (inconclusive).
+		if core.StalledSince(t0) {
+			w.res.Inconcl("links did not finish closing within 6s and the process stalled meanwhile: %s", describe(pendingLinks()))
+			w.fail = true
+			return false
+		}
+		for _, t := range pendingLinks() {
+			if !t.link.IsClosing() {
+				w.res.Inconcl("a link whose connection was closed did not start closing within 6s: %s events: %s", describe(pendingLinks()), strings.Join(w.trace[max(0, len(w.trace)-5):], "; "))
+				w.fail = true
+				return false
+			}
+			t.abandoned = true
+			w.res.Count("closes_abandoned_half_way", 1)
+		}
+		return true
+	}
+	if !settle() {
+		return false
 	}
 	time.Sleep(300 * time.Microsecond)
 	// a far end may have noticed the close only now: let those finish as well
-	if ok && pending() != "" {
-		ok = waitFor(func() bool { return pending() == "" }, 15*time.Second)
-		if !ok {
-			w.res.Inconcl("a link that started closing did not finish within 15s: %s", pending())
-			w.fail = true
-		}
-	}
-	return ok
+	return settle()
 }
 
 // check evaluates the registry/table invariants at a quiescent point. A verdict counts only if no link changed
